@@ -1,14 +1,58 @@
 /-
 C04 (part seq) — FASTA/FASTQ records do not depend on line layout or terminators.
 Property theorems only.
+
+`FastaRenders recs bs` / `FastqRenders qline recs bs` (`Biogo.Spec.Seqio`) say that the bytes
+`bs` hold the records `recs` in *some* layout: lines are `Padded` (content followed by any
+trailing blanks — tab, VT, FF, CR, space — so a CRLF terminator is a trailing CR), every line
+ends in LF except possibly the last; FASTA sequence lines are arbitrary pieces of the letters
+(any wrap width, one long line, empty pieces = blank lines) and blank lines may stand before
+any header; FASTQ records are four lines with blank lines between records.
 -/
-import Biogo.Model.Fasta
-import Biogo.Model.Fastq
+import Biogo.Proofs.Fasta
 
 namespace Biogo.Properties.C04_seq
-open Biogo.Go.Bytes
+open Biogo.Go.Bytes Biogo.Spec.Seqio
 
-/-- placeholder while the pipeline is brought up -/
-theorem crlf_line : splitLines [65, 13, 10] = splitLines [65, 10] := by decide
+section fasta
+open Biogo.Fasta
+
+/-- **FASTA layout independence.**  Two byte strings that hold the same well-formed records —
+    in whatever wrapping of the sequence lines (including one physical line of any length),
+    with or without blank lines, trailing blanks, CRLF terminators, final newline — are read
+    as the same call history: exactly these records, then `io.EOF`. -/
+theorem fasta_layout_independent (recs : List Rec) (bs₁ bs₂ : Bytes)
+    (hwf : ∀ r ∈ recs, wfFasta r = true) (h₁ : FastaRenders recs bs₁) (h₂ : FastaRenders recs bs₂) :
+    readAll {} bs₁ = readAll {} bs₂ ∧
+    readAll {} bs₁ = recs.map (fun r => Call.ret ⟨some r, none⟩) ++ [Call.ret ⟨none, some .eof⟩] := by
+  have e₁ := renders_read recs bs₁ hwf h₁
+  have e₂ := renders_read recs bs₂ hwf h₂
+  exact ⟨e₁.trans e₂.symm, e₁⟩
+
+/-- **re-wrapping**: the file written at width `w` and the file written at width `w'` read as
+    the same records (an instance of `fasta_layout_independent`). -/
+theorem fasta_rewrap (recs : List Rec) (w w' : Nat) (hwf : ∀ r ∈ recs, wfFasta r = true) :
+    readAll {} (recs.flatMap (render w)) = readAll {} (recs.flatMap (render w')) :=
+  (fasta_layout_independent recs _ _ hwf (renders_writer w recs hwf) (renders_writer w' recs hwf)).1
+
+-- non-vacuity: a CRLF file with a blank line, trailing blanks, a sequence cut into uneven
+-- pieces and no final newline is a layout of the record (name `x`, description `d e`,
+-- letters `acgt`) …
+example : FastaRenders [⟨[120], [100, 32, 101], [97, 99, 103, 116]⟩]
+    ([32, 13, 10] ++ [62, 120, 32, 100, 32, 101, 9, 13, 10] ++ [97, 13, 10] ++ [13, 10] ++ [99, 103, 116, 32]) := by
+  refine ⟨[[32, 13], [62, 120, 32, 100, 32, 101, 9, 13], [97, 13], [13], [99, 103, 116, 32]], ?_, ?_⟩
+  · refine .blank _ _ _ ⟨[32, 13], rfl, by decide⟩ ?_
+    refine .record ⟨[120], [100, 32, 101], [97, 99, 103, 116]⟩ _ [[97, 13], [13], [99, 103, 116, 32]] [] []
+      ⟨[9, 13], rfl, by decide⟩ ?_ .nil
+    exact .cons [97] _ [99, 103, 116] _ ⟨[13], rfl, by decide⟩
+      (.cons [] _ [99, 103, 116] _ ⟨[13], rfl, by decide⟩
+        (.cons [99, 103, 116] _ [] _ ⟨[32], rfl, by decide⟩ .nil))
+  · exact .lf [32, 13] _ _ (by decide) (.lf _ _ _ (by decide) (.lf [97, 13] _ _ (by decide)
+      (.lf [13] _ _ (by decide) (.last _ (by decide) (by decide)))))
+-- … and it is read as that record
+example : readAll {} ([32, 13, 10] ++ [62, 120, 32, 100, 32, 101, 9, 13, 10] ++ [97, 13, 10] ++ [13, 10] ++ [99, 103, 116, 32])
+    = [.ret ⟨some ⟨[120], [100, 32, 101], [97, 99, 103, 116]⟩, none⟩, .ret ⟨none, some .eof⟩] := by decide
+
+end fasta
 
 end Biogo.Properties.C04_seq
